@@ -64,6 +64,9 @@ pub struct Case {
 pub enum Which {
     C03,
     C04,
+    /// C05 on real routing: whenever the real handle_srt_packet made a probe duplicate, the datagram is
+    /// flushed and NAKed at once; the charge must go to the link that carried the unique copy
+    C05,
 }
 
 fn adv() -> impl Strategy<Value = u32> {
@@ -274,6 +277,43 @@ pub fn check(case: &Case, obs: &mut Obs, which: Which, ctx: &Ctx) -> CheckResult
                                 ctx.filter_known(r, &mut o2)?;
                                 obs.known_hits.append(&mut o2.known_hits);
                             }
+                        }
+                    }
+                    if which == Which::C05 && *kind != 2 && !holders.is_empty() {
+                        let gated: Vec<usize> = holders.iter().copied().filter(|i| sh.st.conns[*i].is_stall_gated()).collect();
+                        let ungated: Vec<usize> = holders.iter().copied().filter(|i| !sh.st.conns[*i].is_stall_gated()).collect();
+                        if !gated.is_empty() && ungated.len() == 1 {
+                            // a probe duplicate was made by the real send_stall_probes: flush, then NAK that number
+                            let seq = counter & 0x7fff_ffff;
+                            let owner = sh.st.conns[ungated[0]].conn_id;
+                            sh.flush_tick();
+                            let _ = sh.drain_wire();
+                            let snap = |sh: &Shell| -> Vec<(u64, i32, i32, i32)> { sh.st.conns.iter().map(|c| (c.conn_id, c.total_nak_count(), c.window, c.in_flight_packets)).collect() };
+                            let held_by: Vec<u64> = sh.st.conns.iter().filter(|c| c.packet_log.contains_key(&(seq as i32))).map(|c| c.conn_id).collect();
+                            let mut nak = vec![0x80u8, 0x03, 0, 0];
+                            nak.extend_from_slice(&seq.to_be_bytes());
+                            // the NAK arrives on the gated link, on the carrier, or elsewhere
+                            let arrival = [gated[0], ungated[0], (counter as usize) % n][(counter as usize / 7) % 3];
+                            for round in 0..2 {
+                                let b = snap(&sh);
+                                sh.uplink_pkt(arrival, &nak);
+                                let a = snap(&sh);
+                                let changed: Vec<u64> = a.iter().zip(b.iter()).filter(|(x, y)| x != y).map(|(x, _)| x.0).collect();
+                                vensure!(changed.len() <= 1, "nak-multi-charge", "op {oi}: NAK {seq} (probe-duplicated datagram) changed {} links", changed.len());
+                                if let Some(c) = changed.first() {
+                                    vensure!(round == 0, "nak-repeat-charged", "op {oi}: the repeated NAK {seq} charged a link again");
+                                    vensure!(
+                                        *c == owner,
+                                        "nak-charged-probe-link",
+                                        "op {oi}: NAK {seq}: the unique copy went to link id {owner}, a probe duplicate to gated link(s) {:?}; the charge went to link id {c} (held by {:?})",
+                                        gated,
+                                        held_by
+                                    );
+                                    obs.class("nak-on-probed-seq-charged-carrier");
+                                }
+                            }
+                            nontrivial = true;
+                            obs.class("nak-on-probed-seq");
                         }
                     }
                     if which == Which::C04 && !holders.is_empty() {
